@@ -6422,9 +6422,11 @@ bool SoPlexBase<R>::setIntParam(const IntParam param, const int value, const boo
 
    // maximum number of conjugate gradient iterations in least square scaling
    case SoPlexBase<R>::LEASTSQ_MAXROUNDS:
-      if(_scaler)
-         _scaler->setIntParam(value);
-
+      // the parameter belongs to the least squares scaler, whichever scaler is selected at the moment
+      static_cast<SPxScaler<R>&>(_scalerLeastsq).setIntParam(value);
+#ifdef SOPLEX_WITH_MPFR
+      static_cast<SPxScaler<BP>&>(_boostedScalerLeastsq).setIntParam(value);
+#endif
       break;
 
    // mode of solution polishing
@@ -6634,9 +6636,11 @@ bool SoPlexBase<R>::setRealParam(const RealParam param, const Real value, const 
 
    // accuracy of conjugate gradient method in least squares scaling (higher value leads to more iterations)
    case SoPlexBase<R>::LEASTSQ_ACRCY:
-      if(_scaler)
-         _scaler->setRealParam(value);
-
+      // the parameter belongs to the least squares scaler, whichever scaler is selected at the moment
+      static_cast<SPxScaler<R>&>(_scalerLeastsq).setRealParam(value);
+#ifdef SOPLEX_WITH_MPFR
+      static_cast<SPxScaler<BP>&>(_boostedScalerLeastsq).setRealParam(BP(value));
+#endif
       break;
 
    // objective offset
